@@ -134,6 +134,11 @@ def run(ctx):
             hs.append([srv, [2, 1, 1000, 1000, 0, 0, 0, 0, 0, 0, 0, 1]])
             hs.append([srv, [2, 1, 1000, 1000, 0, 0, 0, 1, 1000, 1000, 432, 1], [2, 2, 1, 1, 0, 0, 0, 0, 0, 0, 0, 0]])
             hs.append([srv, [2, 1, 65534, 1, 1, 0, 0, 1, 0, 1, 416, 0], [2, 2, 1000, 1000, 0, 0, 0, 0, 0, 0, 0, 1]])
+        # the scenarios of the findings that have been repaired stay in every run, judged like any other scenario
+        hs += [[list(op) for op in KF[kid][0]] for kid in sorted(KF) if kid not in ACTIVE]
+        for srv in ([1, 1, 0, 0], [1, 2, 0, 0]):          # chosen modes without an owner bit / without any bit, both transports
+            for mode in (288, 256, 32, 0, 292):
+                hs.append([srv, [2, 1, 1000, 1000, 0, 0, 0, 1, 1000, 1000, mode]])
     for h in (hs[:1] + hs[n1:n1 + 2]):
         ctx.sample({"scenario": to_lines(h)})
     ctx.exec_validate(exe, hs, to_lines, "IpcAdmitTrace.tla", "IpcAdmitTrace.cfg", nshards=4, timeout=1500)
